@@ -226,6 +226,38 @@ func genSeqScenario(r *verifrt.Rand, i int) *seqScenario {
 		}
 		s.Cfg.SampleRate = 0
 	}
+	if i%8 == 4 && nf >= 2 {
+		// two approved programs in one week sharing a stack (and a counter) name
+		// that the configuration treats differently per program, in both file orders
+		pa, pb := "golang.org/x/tools/gopls", "example.com/tool"
+		if r.Bool() {
+			pa, pb = pb, pa
+		}
+		s.Cfg.GOOS, s.Cfg.GOARCH, s.Cfg.GoVersion = []string{"linux"}, []string{"amd64"}, []string{"go1.22.1"}
+		s.Cfg.SampleRate = 0
+		s.Cfg.Programs = []*verifref.ProgramConfig{
+			{Name: pa, Versions: []string{"v1.0.0"}, Stacks: []verifref.CounterConfig{{Name: "crash/crash", Rate: 1, Depth: 8}}, Counters: []verifref.CounterConfig{{Name: "editor/opens", Rate: 1}}},
+			{Name: pb, Versions: []string{"v1.0.0"}, Stacks: []verifref.CounterConfig{{Name: "crash/crash", Rate: verifrt.Pick(r, []float64{0, 0.25}), Depth: 8}, {Name: "gopls/bug", Rate: 1}}, Counters: []verifref.CounterConfig{{Name: "editor/opens", Rate: verifrt.Pick(r, []float64{0.25, 1})}}},
+		}
+		if r.Intn(3) == 0 {
+			s.Cfg.Programs[1].Stacks = s.Cfg.Programs[1].Stacks[1:] // not listed at all for the second program
+		}
+		end := t1.Truncate(24 * time.Hour).Add(-time.Duration(1+r.Intn(5)) * 24 * time.Hour)
+		for k, prog := range []string{pa, pb} {
+			f := s.Files[k]
+			f.Kind = "ok"
+			f.Build = verifref.Build{Program: prog, Version: "v1.0.0", GoVersion: "go1.22.1", GOOS: "linux", GOARCH: "amd64"}
+			f.End, f.Begin = end, end.Add(-3*24*time.Hour)
+			f.Counts = map[string]uint64{"crash/crash" + frames: uint64(1 + r.Intn(5)), "gopls/bug" + frames: 2, "editor/opens": uint64(10 + r.Intn(5)), "secret/" + s.Canary: 1}
+			f.setName(k)
+		}
+		for k := range s.Mode {
+			s.Mode[k] = "on 2010-01-01"
+			if s.Xs[k] < 0 || s.Xs[k] < 0.3 {
+				s.Xs[k] = 0.5
+			}
+		}
+	}
 	// a file that keeps growing between runs
 	if nruns > 1 && r.Intn(2) == 0 {
 		s.Grow[1+r.Intn(nruns-1)] = r.Intn(nf)
